@@ -91,7 +91,7 @@ def c12_failures(ty: Ty, aval, only=None, with_contract_data=True, stable=False,
             ok, obs = same_value(ty, v2, aval)
             if not ok:
                 out.append(Failure('from_py::ensures.equal', f'Python object {short(py)} converts back to {short(obs)} instead of {short(aval)}',
-                                   order_only=unordered(G.canon_value(ty, obs)) == unordered(G.canon_value(ty, aval))))
+                                   order_only=(not isinstance(obs, str)) and unordered(G.canon_value(ty, obs)) == unordered(G.canon_value(ty, aval))))
         except ObserveError:
             raise
         except Exception as e:
